@@ -117,7 +117,7 @@ def others_positions(res, x):
 
 def light(res):
     return {k: res.get(k) for k in ("trace", "finalPositions", "crash", "table", "identities", "addedIds",
-                                    "drawsUsed", "rets")}
+                                    "drawsUsed", "rets", "timeTypes")}
 
 
 class C13(SimCheck):
@@ -172,6 +172,8 @@ class C13(SimCheck):
             cfg["duration"] = r.choice([2048, 4096])
         scn["x"] = r.randrange(cfg["nNodes"])
         scn["xProfile"] = dict(X_PROFILE)
+        if r.random() < 0.35:
+            scn["intArgs"] = [scn["x"]]       # only x writes integral numbers as ints (`schedule_timer("wake", 5)`)
         u = r.random()
         if u < self.p_crowd:
             self.crowd(r, scn)
@@ -344,6 +346,14 @@ class C13(SimCheck):
                 fails.append(("C13:shared-iteration-budget", "with an iteration limit: " + msg))
             else:
                 fails.append(("C13:interference", msg))
+            return fails
+        # the representation of the times the others read (what a payload built from the time would show)
+        ta = [t for t in res_a.get("timeTypes", []) if t[0] != x and t[1] != "finish"]
+        tb = [t for t in res_b.get("timeTypes", []) if t[0] != x and t[1] != "finish"]
+        if ta != tb and len(ta) == len(tb) and not bounded:
+            i = next(k for k, (u, v) in enumerate(zip(ta, tb)) if u != v)
+            fails.append(("C13:interference", f"node-scoped requests of silent node {x} changed how the time reads in "
+                          f"callback #{i} of the others: {ta[i]} without them, {tb[i]} with them"))
             return fails
         qa, qb = others_positions(res_a, x), others_positions(res_b, x)
         if qa != qb:
